@@ -488,11 +488,31 @@ def c17_s(draw, pid, tier, opts=None):
         k, cur_s, cur_r = apply_edit(draw, cur_s, cur_r)
         kinds.append(k)
         steps.append([cur_s, cur_r])
+    full = draw(st.integers(0, 11)) == 0
+    if full:
+        # a service table at (or just below) its capacity of 32 entries: renaming an entry, or dropping some and adding
+        # as many new ones over two reloads, frees and re-uses table slots
+        n = draw(st.sampled_from([31, 32, 32]))
+        services = [["s%02d.ex" % i, draw(st.sampled_from(proto.PROTOCOLS))] for i in range(n)]
+        rules = rules[:2]
+        for r_ in rules:
+            if "xreply_ok" in r_[1]:
+                r_[1]["xreply_ok"] = draw(st.sampled_from(["s00.ex", "s31.ex", "n05.ex", "zz1.ex"]))
+        if draw(st.booleans()):
+            new = copy.deepcopy(services)
+            i = draw(st.integers(0, n - 1))
+            new[i] = [draw(st.sampled_from(["n%02d.ex" % i, "zz1.ex", "a00.ex"])), draw(st.sampled_from(proto.PROTOCOLS))]
+            steps, kinds = [[new, rules]], ["rename_svc_full_table"]
+        else:
+            drop = draw(st.lists(st.integers(0, n - 1), min_size=1, max_size=3, unique=True))
+            s1 = [x for i, x in enumerate(copy.deepcopy(services)) if i not in drop]
+            s2 = s1 + [["n%02d.ex" % i, draw(st.sampled_from(proto.PROTOCOLS))] for i in drop]
+            steps, kinds = [[s1, rules], [s2, rules]], ["del_svc_full_table", "add_svc_full_table"]
     mk = lambda s, r: {"modules": ["iauth_class", "iauth_xquery"], "services": s, "rules": r, "timeout": 0, "logs": [["*.>=info", "file:iauthd.log"]]}
     confs = [mk(services, rules)] + [mk(s, r) for s, r in steps]
     # traffic before the reload: clients that may leave queries outstanding
     pre = []
-    if draw(st.booleans()):
+    if not full and draw(st.booleans()):
         for cid in (1, 2)[:draw(st.integers(1, 2))]:
             pre += [["C", cid, "10.9.9.9", 1111], ["N", cid, "pre.example.org"], ["u", cid, "pre"], ["n", cid, "Pre%d" % cid],
                     ["U", cid, "pre", "pre client"], ["P", cid, "+x alice pw"]]
